@@ -19,9 +19,16 @@ CHECKS = {
              "rejection before the simulation advances, actions unchanged, __all__ iff, reward ledger); readings "
              "c01_* prove the predicate says what the property says. Tie: the real AllStep/TurnBased/DynamicOrder "
              "managers run over a scripted stub; traces must equal the model's and specC01 is evaluated by the "
-             "driver on the implementation's trace.",
-        design="§5 C01", technique="Lean 4 proof (induction over histories with a manager invariant) + differential "
-                                   "correspondence of the hand-written model with the real managers"),
+             "driver on the implementation's trace. The packaged examples TeamBattleSim, PredatorPreyResourcesSim, "
+             "MazeNavigationSim and TrafficCorridorSimulation are modelled instances (Model/Examples.lean; Ex.ex_lawful, "
+             "Ex.ex_WF, C01_examples: specC01 for every configuration of the class, manager and history), tied by the "
+             "real managers over the real example objects (op mgrx) and by direct calls (op gexample): their glue is no "
+             "longer only monitored; MultiMazeNavigationSim is modelled too and proved NOT lawful "
+             "(multiMaze_not_lawful, open finding C01-E1; C01_MultiMaze_partial = all clauses but the ledger).",
+        design="§5 C01", technique="Lean 4 proof (induction over histories with a manager invariant; instantiated for "
+                                   "the scripted stub and for the modelled packaged example simulations) + differential "
+                                   "correspondence of the hand-written models with the real managers over the stub and "
+                                   "over the real example objects"),
     "C02": dict(
         text="Lean 4 theorems composing what C03/C09/C11/C12/C04/C05/C14/C20 prove. Grid part (a grid-world simulation is a "
              "history of component calls - moves of the three move actors, attacks of the four attack actors with their "
@@ -52,15 +59,22 @@ CHECKS = {
              "under a scripted oracle tape with every action a reproducible sample (or, in the exhaustive small scopes, "
              "every point) of the declared action space. Every (declared space, observation / null point / action) pair is "
              "dumped and judged by Lean's `mem`; the real `point in space` must agree with `mem`, and an action that makes "
-             "sim.step raise fails the specification.",
+             "sim.step raise fails the specification. The packaged examples TeamBattleSim, PredatorPreyResourcesSim, "
+             "MazeNavigationSim, MultiMazeNavigationSim and TrafficCorridorSimulation are modelled instances "
+             "(examples_step_is_history: their step IS a history of component calls on one tape; "
+             "examples_observations_in_space: in every state reachable by their own reset / step every channel of get_obs "
+             "lies in the space its observer declared), tied by direct calls on real objects compared entry by entry with "
+             "the model (op gexample): their step / reset / getter glue is no longer only monitored (open findings "
+             "C02-E2, C02-E3: TeamBattleSim / PredatorPreyResourcesSim.step raise for in-space actions).",
         design="§5 C02", technique="Lean 4 proof by composition (reachability induction of C03 + observer/actor theorems of "
                                    "C09/C11/C12; membership preservation of the four wrapper layers and of stacks from "
                                    "C04/C05/C14/C20) + runtime monitor of real simulations, wrapper stacks and example "
                                    "simulations whose every space/point pair is judged by the Lean membership predicate",
         note=NOTE + " C02 specifically: the theorems are about the component models and the Space/Pt model; that a real "
-             "simulation's step is a history of component calls, gymnasium's `contains`, and the packaged example "
-             "simulations' own glue and observers are monitored at run time, not proved; how a Python value is read as a "
-             "point (harness/c02sims.py dump_point) is harness code; no open finding: C02-E1 (the comms_blocking example's "
+             "simulation's step is a history of component calls is proved for the five modelled example classes "
+             "(Props/Examples.lean) and monitored for the rest; gymnasium's `contains`, ReachTheTargetSim and the examples "
+             "with hand-written observers / components are monitored at run time, not proved; how a Python value is read as a "
+             "point (harness/c02sims.py dump_point) is harness code; C02-E1 (the comms_blocking example's "
              "broadcast observation, dba409b), C02-N1 (communication wrapper kept null points unchanged, ad51457), "
              "C02-N2 (ravel / flatten wrappers converted null points only if truthy, 7d54d86) and C02-A1 (selective "
              "attack given as a nested list, ecfc6a7) were found by this check and repaired in /repo."),
@@ -70,9 +84,13 @@ CHECKS = {
              "(all-step: every live learner; turn-based: finishing agents then the first live agent in cyclic "
              "listing order; dynamic: nominated minus done), some reported agent can act whenever __all__ is "
              "false, and the turn search never exhausts a rotation (termination). Tie as for C01, every real call "
-             "under a watchdog.",
-        design="§5 C07", technique="Lean 4 proof (turn-search totality and fairness by induction) + differential "
-                                   "correspondence with the real managers under a watchdog"),
+             "under a watchdog. The packaged examples TeamBattleSim, PredatorPreyResourcesSim, MazeNavigationSim, "
+             "TrafficCorridorSimulation (C07_examples) and MultiMazeNavigationSim (C07_MultiMaze_partial, reward values "
+             "erased) are modelled instances driven by the real managers over the real objects (op mgrx): their glue is "
+             "no longer only monitored.",
+        design="§5 C07", technique="Lean 4 proof (turn-search totality and fairness by induction; instantiated for the "
+                                   "stub and the modelled packaged examples) + differential correspondence with the real "
+                                   "managers (over the stub and over real example objects) under a watchdog"),
     "C03": dict(
         text="Lean 4 theorems C03_reachable / C03_every_step / C03_hist over the grid-world state machine (explicit cell "
              "table stored redundantly with every agent's position; Model/Grid, Movers, Attacks, Placement, Vitals, "
@@ -99,7 +117,12 @@ CHECKS = {
              "with the C03 component of their replies; six real example simulations driven through their own "
              "reset()/step() with every dumped world judged by the Lean invariant (gwinv, runtime monitor); writes "
              "through the health / ammo setters. Finding K4 (a drawn initial health of exactly 0.0 leaves an inactive "
-             "agent on the grid) is the out-of-domain stream healthClosed: reproduced on the real code, open.",
+             "agent on the grid) is the out-of-domain stream healthClosed: reproduced on the real code, open. The packaged "
+             "examples TeamBattleSim, PredatorPreyResourcesSim, MazeNavigationSim, MultiMazeNavigationSim and "
+             "TrafficCorridorSimulation are modelled instances (examples_step_is_history, examples_reachable_WInv, "
+             "examples_simIface_reachable: every world their own reset / step can reach satisfies WInv), tied by direct "
+             "calls on real objects against the model (op gexample): their glue is no longer only monitored "
+             "(ReachTheTargetSim stays a monitor judged by WInvWeak).",
         design="§5 C03", technique="Lean 4 proof (invariant + induction over operation histories, reusing the C12 move, C11 "
                                    "attack and C13 placement theorems and the vitals lemmas) + whole-history differential "
                                    "correspondence with the real state components and actors on one world object, plus "
@@ -221,7 +244,13 @@ CHECKS = {
              "traces must be identical and equal to the model's; for the grid components the prefix is a history of "
              "moves, attacks, deaths and resets on one real world and the model runs the follow-up from the FRESH "
              "world's dump (op ghist); multi-episode cases of the placement states, the communication wrapper and the "
-             "super-agent wrapper are forwarded from their own modules and judged by their trace specifications.",
+             "super-agent wrapper are forwarded from their own modules and judged by their trace specifications. The "
+             "packaged examples TeamBattleSim, PredatorPreyResourcesSim, MazeNavigationSim, MultiMazeNavigationSim and "
+             "TrafficCorridorSimulation are modelled instances: examples_reset_forgets (their reset maps two objects of the "
+             "same configuration under the same seed to the same state), examples_fresh_twin / "
+             "examples_fresh_twin_reachable (hence, under every manager, the episode after a reset on an object that went "
+             "through ANY history equals the episode on a newly built one), tied by used-versus-fresh twins of real "
+             "example objects (layer example, op gexample) and by the example streams of C01 / C02 / C03.",
         design="§5 C08", technique="Lean 4 proof (state equality after reset, lifted to traces) + used-versus-fresh twin "
                                    "differential runs on the real code",
         note=NOTE + " Layers covered in this check: the three managers, the OpenSpiel adapter, GymABS (state-equality "
